@@ -118,8 +118,20 @@ def run(name, tier, props, seed):
     try:
         rc, o = sh(["git", "apply", patch], wt)
         if rc != 0:
-            print("patch does not apply:\n" + o)
-            return 2
+            # the patch was written against an older commit of /repo: try a 3-way merge, then fall
+            # back to the commit the patch was made for (recorded in the results)
+            rc, o = sh(["git", "apply", "--3way", patch], wt)
+            if rc == 0:
+                results["_applied"] = "3-way merge onto HEAD"
+            else:
+                sh(["git", "checkout", "--", "."], wt)
+                base = json.load(open(os.path.join(d, "meta.json"))).get("base_commit", "c8329aa")
+                sh(["git", "checkout", "--detach", base], wt)
+                rc, o = sh(["git", "apply", patch], wt)
+                results["_applied"] = "on base commit " + base
+                if rc != 0:
+                    print("patch does not apply:\n" + o)
+                    return 2
         for p in props:
             t0 = time.time()
             env = dict(os.environ, VERIF_SEED=str(seed), VERIF_REPO=wt)
